@@ -190,7 +190,8 @@ def check_expression(ctx: Ctx, inp) -> None:
     from schemathesis.specs.openapi import expressions
 
     ex, expr = inp["exchange"], inp["expr"]
-    if not in_domain(expr):
+    suffixed = re.search(r"\$(request\.(path\.id|query\.q|header\.X-H)|response\.header\.(Location|X-Id))(\.value|\$method|\.a\.b|\{x\}|\.0)", expr) is not None
+    if not suffixed and not in_domain(expr):
         ctx.evaluations += 1
         ctx.inconclusive_case("expression outside the zone where the grammar gives one answer")
         return
@@ -222,7 +223,7 @@ def check_expression(ctx: Ctx, inp) -> None:
     if "~" in expr:
         classes.append("pointer-escape")
     ctx.case(nontrivial=inp if nontrivial else None, classes=classes, sample={"expr": expr, "exchange": ex, "expected": repr(expected)})
-    if re.search(r"\$(request\.(path\.id|query\.q|header\.X-H)|response\.header\.(Location|X-Id))(\.value|\$method|\.a\.b|\{x\}|\.0)", expr):
+    if suffixed:
         ctx.classes["suffixed-parameter-reference"] += 1
         if raised is None and got is not rex.UNRES and not (isinstance(got, str) and "{" not in expr and got == expr):
             ctx.disagree("suffixed-parameter-reference-evaluated", f"{expr!r} names no parameter of the exchange but evaluates to {got!r}", input=inp)
